@@ -528,4 +528,33 @@ def c15(ctx):
                       'as real directories with hostile names and run through the real find_top_level_manifest.')
 
 
-CHECKS = {'C15': c15, 'C14': c14, 'C05': c05, 'C11': c11, 'C03': c03, 'C10': c10, 'C12': c12, 'C13': c13, 'C01': c01, 'C02': c02, 'C04': c04, 'C07': c07, 'C08': c08, 'C09': c09}
+def c16(ctx):
+    from . import drv_walk as d
+    thorough = ctx.tier == 'thorough'
+    ctx.mc('Walker', 'MC_Walker.cfg', timeout=3000)
+    n = 12000 if thorough else 700
+    out = core.pool_map(d.one_graph, [(ctx.seed, i, {}) for i in range(n)])
+    recs = [r for o in out for r in o]
+    metas = [r.pop('meta') for r in recs]
+    ctx.judge('TraceWalk', 'TraceWalk.cfg', recs, metas, {'module': 'TraceWalk'},
+              sig=lambda r: hash(json_key({a: b for a, b in r.items() if a not in ('id', 'exc')})))
+    by = {}
+    for r in recs:
+        k = '%s/%s' % (r['op'], r['obs'])
+        by[k] = by.get(k, 0) + 1
+    ctx.extra['outcomes'] = by
+    ctx.extra['graphs'] = n
+    if not d.have_second_fs():
+        ctx.skipped.append('/dev/shm is not a second file system here: cross-device part skipped')
+    ctx.sample({'graph': {k: recs[0][k] for k in ('dirs', 'edges', 'foreign', 'onefs', 'op', 'obs')}, 'links': metas[0]['links']})
+    ctx.assumptions += ['second file system = /dev/shm (tmpfs) reached through symlinks from a tree under /tmp',
+                        'an IGNOREd edge is only generated where its logical path is unique',
+                        'verification runs with a non-raising handler so that strays seen through links do not pre-empt the walk']
+    return ctx.finish(rule='Walker.tla: the shared directory walker over ALL symlink graphs on 4 directories (<=3 links, <=1 IGNOREd '
+                      'edge, <=1 foreign directory, one-file-system on/off): termination as a bound on the ancestor chain and '
+                      'outcome = WalkRef!Expected, by TLC; random graphs of 2-6 directories plus up to 2 on a real second file '
+                      'system with self/parent/ancestor/sibling/mutual/chain links run through assert_directory_verifies, '
+                      'update_entries_for_directory and load_unregistered_manifests under a 20 s watchdog.')
+
+
+CHECKS = {'C16': c16, 'C15': c15, 'C14': c14, 'C05': c05, 'C11': c11, 'C03': c03, 'C10': c10, 'C12': c12, 'C13': c13, 'C01': c01, 'C02': c02, 'C04': c04, 'C07': c07, 'C08': c08, 'C09': c09}
